@@ -205,13 +205,18 @@ type vfFeedWriter struct{ r *vfFeedReader }
 func (w *vfFeedWriter) Write(p []byte) (int, error) { w.r.feed(p); return len(p), nil }
 func (w *vfFeedWriter) Close() error                { return nil }
 
+// vfBinWrap is an optional command prefix for server children (e.g. prlimit).
+var vfBinWrap []string
+
 func vfBinPath(name string) string {
 	return filepath.Join(vfEnv("VERIF_BIN", "."), name)
 }
 
 // startServer launches the real trz / tsz binary with its stdin / stdout on the wire.
 func (s *vfSession) startServer(name string, args []string, dir string, extraEnv ...string) error {
-	cmd := exec.Command(vfBinPath(name), args...)
+	argv := append(append([]string(nil), vfBinWrap...), vfBinPath(name))
+	argv = append(argv, args...)
+	cmd := exec.Command(argv[0], argv[1:]...)
 	cmd.Dir = dir
 	env := []string{}
 	for _, e := range os.Environ() {
